@@ -106,6 +106,18 @@ fn decode_host(host: &str) -> Option<Cow<str>> {
     }
 }
 
+/// Returns whether `rp_id` is `host` itself or a suffix of it that starts at a label boundary,
+/// i.e. is preceded by a `.` in `host`. A plain string suffix is not enough: `example.com` is a
+/// string suffix of `evilexample.com` without being a parent domain of it.
+fn is_domain_suffix(host: &str, rp_id: &str) -> bool {
+    match host.strip_suffix(rp_id) {
+        // An `rp_id` with a leading dot already carries its label boundary, it is rejected later
+        // on as an invalid RP ID due to its empty label.
+        Some(rest) => rest.is_empty() || rest.ends_with('.') || rp_id.starts_with('.'),
+        None => false,
+    }
+}
+
 /// The origin of a WebAuthn request.
 pub enum Origin<'a> {
     /// A Url, meant for a request in the web browser.
@@ -536,7 +548,7 @@ where
         let mut effective_domain = origin.domain().ok_or(WebauthnError::OriginMissingDomain)?;
 
         if let Some(rp_id) = rp_id {
-            if !effective_domain.ends_with(rp_id) {
+            if !is_domain_suffix(effective_domain, rp_id) {
                 return Err(WebauthnError::OriginRpMissmatch);
             }
 
@@ -608,7 +620,7 @@ where
 
         if let Some(rp_id) = rp_id {
             // subset from assert_web_rp_id
-            if !effective_rp_id.ends_with(rp_id) {
+            if !is_domain_suffix(effective_rp_id, rp_id) {
                 return Err(WebauthnError::OriginRpMissmatch);
             }
             effective_rp_id = rp_id;
